@@ -145,7 +145,19 @@ def gen_secret(rng, command, valid=True, words=None):
 
 
 def gen_password(rng):
-    return "".join(rng.choice(PW_ALPHABET) for _ in range(rng.randint(10, 18))).strip() or "pässwörd-0123"
+    """>= 10 characters; BIP39 passphrases are significant byte for byte, so edge whitespace, inner double
+    blanks, tabs and newlines are part of the alphabet (the CLI must hand them to the library unchanged)."""
+    core_ = "".join(rng.choice(PW_ALPHABET) for _ in range(rng.randint(10, 18))).strip() or "pässwörd-0123"
+    x = rng.random()
+    if x < 0.15:
+        return core_ + rng.choice([" ", "  ", "\t", "\n"])
+    if x < 0.30:
+        return rng.choice([" ", "\t", "\n "]) + core_
+    if x < 0.36:
+        return core_[:5] + rng.choice(["  ", "\t", "\n"]) + core_[5:]
+    if x < 0.42:
+        return core_.upper() if rng.random() < 0.5 else core_ + "\u0301"      # case / combining mark
+    return core_
 
 
 def gen_plan(prop, seed, tier, idx):
